@@ -359,7 +359,11 @@ func (pr propC04) Run(w *World, st *Stats) *Violation {
 		// every TryEval of this world, as in the deployment the README
 		// describes; only what the fetcher reports changes between calls.
 		reqFetcher := &SimFetcher{}
-		reqCtx := &eval.Ctx{VariableFetcher: reqFetcher}
+		var varNamesAll []string
+		for _, v := range w.Cfg.Vars {
+			varNamesAll = append(varNamesAll, v.Name)
+		}
+		reqCtx := &eval.Ctx{VariableFetcher: WrapFetcher(w.Cfg.Fetcher, reqFetcher, varNamesAll)}
 		reuse := w.Extra["fresh_ctx"] != "1"
 		var realCtx *eval.Ctx // set per request in real-fetcher timelines
 		// A request's Ctx is also shared by rules compiled under OTHER configs
